@@ -30,9 +30,29 @@ LEAN = dict(
         "step_refines", "step_refines_statement_holds", "step_outcome_agrees", "inv_preserved", "rep_exists", "init_inv_rep",
         "run_refines", "run_refines_from", "spec_run_ignores_boundaries",
         "deleted_never_reappears", "visible_stays", "created_never_hidden", "created_group_never_hidden",
-        "replaced_never_reappears", "replaced_by_dataset_never_reappears", "legacy_scan_not_transparent"]],
+        "replaced_never_reappears", "replaced_by_dataset_never_reappears", "legacy_scan_not_transparent"]] + [
+        # translation tie (harness/translate_c01.py -> Gen/OverlayScan.lean): what overlay.py says now is the model
+        "MetadorModel.Bridge.OverlayScan." + n for n in [
+            "gen_SUBST_KEY", "gen_node_is_virtual", "gen_node_is_del_mark", "gen_attr_value_preds", "gen_guard_open",
+            "gen_get_child_raw", "gen_children_loop2", "gen_children_loop1", "gen_children", "gen_get_child",
+            "gen_node_seq_loop", "gen_find", "gen_find_rel", "gen_find_inv", "gen_find_visible"]],
     drivers=["drv_ov"],
 )
+# three modules so that a broken proof is attributed to the function group that changed
+LEAN["modules"] += ["MetadorModel.Bridge.OverlayScanPreds", "MetadorModel.Bridge.OverlayScanChildren", "MetadorModel.Bridge.OverlayScan"]
+
+
+def translate(ctx):
+    """regenerate Gen/OverlayScan.lean from the current source (`_node_is_virtual`, `_node_is_del_mark`, `_guard_open`,
+    `_get_child_raw`, `_get_child`, `_children`, `_node_seq`, `_find` of ih5/overlay.py)"""
+    from .. import translate_c01
+    try:
+        return translate_c01.write(lean)
+    except Exception as e:  # noqa: BLE001
+        # leave no text of an earlier run (possibly of another tree) behind: the bridge module then fails to
+        # build for this reason and not for a stale one
+        translate_c01.write_stub(lean, "%s: %s" % (type(e).__name__, e))
+        raise
 
 # ----------------------------------------------------------------------------- encoding
 
